@@ -28,15 +28,28 @@ struct growing_circular_array {
 
   [[nodiscard]] std::size_t capacity() const { return _capacity.load(std::memory_order_relaxed); }
 
-  T* get(std::size_t idx, std::memory_order order) {
+  T* get(std::size_t idx, [[maybe_unused]] std::memory_order order) {
     // (1) - this acquire-load synchronizes-with the release-store (2)
     auto capacitiy = _capacity.load(std::memory_order_acquire);
-    return get_entry(idx, capacitiy).load(order);
+    for (;;) {
+      // The old and the new layout share the first buckets, so once the array has grown a slot of the
+      // old layout can be overwritten by put() with the item of a larger index. A reader that started
+      // with the old capacity must therefore re-validate the capacity after it has read the entry.
+      // (3) - this acquire-load synchronizes-with the release-store (4); if it returns such a newer
+      //       item, the following load is guaranteed to observe the new capacity.
+      auto* result = get_entry(idx, capacitiy).load(std::memory_order_acquire);
+      auto current = _capacity.load(std::memory_order_acquire);
+      if (current == capacitiy) {
+        return result;
+      }
+      capacitiy = current;
+    }
   }
 
-  void put(std::size_t idx, T* value, std::memory_order order) {
+  void put(std::size_t idx, T* value, [[maybe_unused]] std::memory_order order) {
     auto capacitiy = _capacity.load(std::memory_order_relaxed);
-    get_entry(idx, capacitiy).store(value, order);
+    // (4) - this release-store synchronizes-with the acquire-load (3)
+    get_entry(idx, capacitiy).store(value, std::memory_order_release);
   }
 
   bool can_grow() { return capacity() < max_capacity; }
